@@ -13,7 +13,7 @@ from simkit.chaosnet import FaultDriver, build_mesh
 from simkit.rng import seed_globals
 from simkit.world import InvalidScenario, Monitor, result, run_sim
 
-KLASSES = ("ml-live", "ml-live-jitter", "ml-pingpong", "ml-single", "ml-single-faulty", "ml-multi-fifo", "ml-multi")
+KLASSES = ("ml-live", "ml-live-jitter", "ml-pingpong", "ml-recampaign", "ml-single", "ml-single-faulty", "ml-multi-fifo", "ml-multi")
 LIVE = ("ml-live", "ml-live-jitter")
 FIFO = ("ml-live", "ml-single-faulty", "ml-multi-fifo", "ml-pingpong")
 PFX = {"multi": "MultiPaxos", "flex": "FlexPaxos"}
@@ -39,7 +39,8 @@ class RecordingStateMachine:
 
 def gen(rng, fam):
     r = rng.random()
-    klass = ("ml-live" if r < 0.08 else "ml-live-jitter" if r < 0.19 else "ml-pingpong" if r < 0.29 else "ml-single" if r < 0.40
+    klass = ("ml-live" if r < 0.07 else "ml-live-jitter" if r < 0.17 else "ml-pingpong" if r < 0.26
+             else "ml-recampaign" if r < 0.35 else "ml-single" if r < 0.44
              else "ml-single-faulty" if r < 0.50 else "ml-multi-fifo" if r < 0.75 else "ml-multi")
     n = rng.choice([3, 3, 4, 5, 5]) if klass != "ml-live-jitter" else rng.choice([3, 3, 3, 4, 5])
     scale = rng.choice([0.005, 0.01, 0.02])
@@ -47,6 +48,11 @@ def gen(rng, fam):
     prof = gen_net(rng, scale, fifo=fifo, bounded=(klass == "ml-live-jitter"))
     per = gen_per_link(rng, n, prof, fifo=fifo) if klass != "ml-live-jitter" else {}
     lead0 = rng.randrange(n)
+    if klass == "ml-recampaign":
+        # bounded but non-FIFO delays: individual messages straggle (10-150 x the base), nothing is lost
+        prof = {"base": round(scale * 0.2, 6), "jitter": round(scale * rng.choice([0.5, 1.0]), 6),
+                "straggler_p": rng.choice([0.1, 0.25, 0.4]), "straggler": round(scale * rng.choice([10.0, 40.0, 150.0]), 6)}
+        per = {}
     if klass == "ml-live-jitter" and rng.random() < 0.6:
         # variant "acks only": leader -> follower links are FIFO (constant), follower -> leader links jitter, so Accepted
         # responses overtake each other while Accepts arrive in order (keeps the recorded gap-append finding out)
@@ -54,7 +60,7 @@ def gen(rng, fam):
         jit = round(scale * rng.choice([2.0, 5.0, 10.0]), 6)
         per = {f"n{f}->n{lead0}": {"jitter": jit} for f in range(n) if f != lead0}
     dmax = max_delay(prof, per)
-    hb = rng.choice([0.2, 0.5, 1.0, 5.0]) if klass not in LIVE else rng.choice([0.2, 0.5, 1.0])
+    hb = rng.choice([0.2, 0.5, 1.0, 5.0]) if klass not in LIVE + ("ml-recampaign",) else rng.choice([0.2, 0.5, 1.0])
     if fam == "flex":
         pairs = [(a, b) for a in range(1, n + 1) for b in range(1, n + 1) if a + b > n]
         q1, q2 = rng.choice(pairs)
@@ -93,6 +99,21 @@ def gen(rng, fam):
             tt += rng.uniform(0, 0.4 * hb)
         submits.sort(key=lambda s: s["t"])
         horizon = round(max(s["t"] for s in submits) + 2 * hb + 12 * dmax + 0.01, 5)
+    elif klass == "ml-recampaign":
+        # one node campaigns repeatedly (start() 2-4 times, a retry typically before the slow first campaign finished), no
+        # competitor, no fault; commands go to it whenever it is the established leader, one in flight at a time;
+        # judged: every command it accepted as leader is decided and applied at every node
+        dmax = max_delay(prof, per)
+        starts = [{"t": t0, "node": lead0}]
+        t = t0
+        for _ in range(rng.choice([1, 1, 2, 3])):
+            t += rng.choice([rng.uniform(0, 4 * scale), rng.uniform(0, 0.5 * dmax), rng.uniform(0, 1.5 * dmax)])
+            starts.append({"t": round(t, 5), "node": lead0})
+        tc = t0 + rng.uniform(0, 0.5 * dmax)
+        for i in range(rng.randint(2, 6)):
+            submits.append({"t": round(tc, 5), "mode": "leader", "node": 0, "cmd": f"c{i}"})
+            tc += 2 * dmax + rng.uniform(0, dmax)
+        horizon = round(max([s["t"] for s in submits] + [starts[-1]["t"] + 4 * dmax]) + 2 * hb + 12 * dmax + 0.01, 5)
     elif klass in LIVE:
         base = t0 + 4 * dmax + 0.001
         for i in range(k):
@@ -121,7 +142,7 @@ def gen(rng, fam):
             "submits": submits, "horizon": horizon,
             # ml-live-jitter judges liveness only: reordering inside the delay bound is not a fault, and the recorded
             # Multi/Flexible safety findings that reordering triggers must not end the run before liveness is judged
-            "defer_fine": klass in ("ml-live-jitter", "ml-pingpong") or (klass != "ml-live" and rng.random() < 0.3)}
+            "defer_fine": klass in ("ml-live-jitter", "ml-pingpong", "ml-recampaign") or (klass != "ml-live" and rng.random() < 0.3)}
 
 
 def _validate(sc):
@@ -154,9 +175,9 @@ def _validate(sc):
             raise InvalidScenario("commands must be unique")
         cmds.add(s["cmd"])
     k = sc["klass"]
-    if k in ("ml-live", "ml-live-jitter", "ml-single", "ml-single-faulty") and len({s["node"] for s in sc["starts"]}) != 1:
+    if k in ("ml-live", "ml-live-jitter", "ml-recampaign", "ml-single", "ml-single-faulty") and len({s["node"] for s in sc["starts"]}) != 1:
         raise InvalidScenario("single-starter class")
-    if k in ("ml-live", "ml-live-jitter", "ml-pingpong", "ml-single", "ml-multi-fifo") and sc.get("faults"):
+    if k in ("ml-live", "ml-live-jitter", "ml-pingpong", "ml-recampaign", "ml-single", "ml-multi-fifo") and sc.get("faults"):
         raise InvalidScenario("fault-free class")
     if k in FIFO:
         pr = [sc["profile"]] + list((sc.get("per_link") or {}).values())
@@ -166,6 +187,15 @@ def _validate(sc):
         pr = [sc["profile"]] + list((sc.get("per_link") or {}).values())
         if any(p.get("straggler_p", 0) for p in pr) or not sc.get("defer_fine"):
             raise InvalidScenario("ml-live-jitter: bounded delays, liveness-only (deferred) mode")
+    if k == "ml-recampaign":
+        dmax = max_delay(sc["profile"], sc.get("per_link"))
+        subs = sorted(s["t"] for s in sc.get("submits", []))
+        if not sc.get("defer_fine") or not subs or any(s["mode"] != "leader" for s in sc["submits"]):
+            raise InvalidScenario("ml-recampaign: liveness-only (deferred) mode, commands for the leader")
+        if any(b - a < 2 * dmax for a, b in zip(subs, subs[1:])):
+            raise InvalidScenario("ml-recampaign: one command in flight at a time")
+        if sc["horizon"] < max(subs + [max(s["t"] for s in sc["starts"]) + 4 * dmax]) + 2 * sc["hb"] + 12 * dmax:
+            raise InvalidScenario("liveness horizon too short")
     if k == "ml-pingpong":
         tail = [s for s in sc.get("submits", []) if s.get("tail")]
         dmax = max_delay(sc["profile"], sc.get("per_link"))
@@ -227,7 +257,8 @@ def run(sc):
                         "ml_leader_uses_foreign_ballot", "ml_leader_kept_leading_after_own_tick",
                         "ml_command_after_first_tick_applied_everywhere", "ml_promise_reported_entries",
                         "ml_live_two_slots_in_flight", "ml_live_acks_out_of_slot_order", "ml_leader_regained_after_own_tick_while_deposed",
-                        "ml_pingpong_tail_command_applied_everywhere"], 0)
+                        "ml_pingpong_tail_command_applied_everywhere", "ml_recampaign_stale_nack_reached_leader",
+                        "ml_recampaign_command_applied_everywhere"], 0)
     deposed_tick = set()         # nodes whose own heartbeat tick fired while they were not leader
     in_flight_max = [0]
     acks_ooo = [False]
@@ -414,6 +445,9 @@ def run(sc):
                     note_accept(slot, (b[0], b[1], cmd), x.name)
             else:
                 pr["ml_nack"] = 1
+        if et == P + "Nack" and klass == "ml-recampaign" and md.get("ballot_node") == x.name \
+                and (md.get("ballot_number"), md.get("ballot_node")) == (x._current_ballot.number, x._current_ballot.node_id):
+            pr["ml_recampaign_stale_nack_reached_leader"] = 1   # a nack that only names the node's own current ballot
         if len(cur) < len(old) or any(a != c for a, c in zip(old, cur)):
             pr["ml_truncate"] = 1
         # --- leadership probes
@@ -524,7 +558,7 @@ def run(sc):
         sig, msg = payload.sig, payload.msg
         if status == "exception":
             sig = f"C12/{sig}"
-    elif status == "ok" and (klass in LIVE or klass == "ml-pingpong"):
+    elif status == "ok" and (klass in LIVE or klass in ("ml-pingpong", "ml-recampaign")):
         dmax = max_delay(sc["profile"], sc.get("per_link"))
         tag = "/leader-deposed-by-own-heartbeat" if pr["ml_leader_deposed_by_own_heartbeat"] else ""
         bad = None
@@ -536,7 +570,11 @@ def run(sc):
             if not any(cmd in d.values() for d in decided):
                 bad = ("never-decided", f"command {cmd!r} submitted to established leader {nd.name} was decided nowhere")
             elif lagging:
-                bad = ("not-applied-everywhere", f"command {cmd!r} submitted to established leader {nd.name} was never applied at {lagging}")
+                # does a lagging node at least hold the entry (it only never learned the commit), or did it never get it?
+                lacks = [x.name for x in nodes if x.name in lagging and all(e.command != cmd for e in x.log.entries_after(0))]
+                kind = "not-applied-everywhere/follower-lacks-entry" if lacks else "not-applied-everywhere"
+                bad = (kind, f"command {cmd!r} submitted to established leader {nd.name} was never applied at {lagging}"
+                             + (f"; {lacks} do not even hold the entry in their log" if lacks else " (they hold the entry)"))
             elif not fut.is_resolved:
                 bad = ("future-unresolved", f"submit({cmd!r}) future at {nd.name} never resolved")
             if bad:
@@ -545,9 +583,11 @@ def run(sc):
             if J.first_fine:  # liveness-only class: name the recorded safety cause that preceded the liveness failure
                 tag += f"/after:{J.first_fine[0]}:{J.first_fine[1]}"
             sig = f"C12/liveness/{CLS}/{bad[0]}{tag}"
-            msg = (f"fault-free, {'bounded jitter (reordering)' if klass == 'ml-live-jitter' else 'FIFO links'}, delays <= {dmax:.4f}s, heartbeat {sc['hb']}s, horizon {sc['horizon']}s: {bad[1]}; "
+            msg = (f"fault-free, {'bounded jitter (reordering)' if klass == 'ml-live-jitter' else 'bounded delays with stragglers' if klass == 'ml-recampaign' else 'FIFO links'}, delays <= {dmax:.4f}s, heartbeat {sc['hb']}s, horizon {sc['horizon']}s: {bad[1]}; "
                    f"commit indexes {[x.log.commit_index for x in nodes]}, leaders now {[x.name for x in nodes if x.is_leader]}, "
                    f"commands skipped because no node was leader: {skipped['no_leader']}")
+    pr["ml_recampaign_command_applied_everywhere"] = int(klass == "ml-recampaign" and any(
+        all(c in sm.applied for sm in sms) for _, _, c, _ in futures))
     pr["ml_pingpong_tail_command_applied_everywhere"] = int(klass == "ml-pingpong" and any(
         s.get("tail") and all(s["cmd"] in sm.applied for sm in sms) for s in sc.get("submits", [])))
     pr["ml_live_two_slots_in_flight"] = int(klass in LIVE and in_flight_max[0] >= 2)
